@@ -289,12 +289,21 @@ Proof.
   intros P C Hs. split; [apply plan_move_id; auto|]. intros _ A. unfold in_cons. rewrite C, Hs. exact A.
 Qed.
 
+Lemma on_timeout_cover s : plan (on_timeout s) = plan s /\ consumed (on_timeout s) = consumed s /\
+  (forall e, hosts_of (on_timeout s) e = hosts_of s e).
+Proof.
+  destruct (on_timeout_same s) as [[_ F]|[_ E]]; [|rewrite E; auto].
+  destruct F. repeat split; auto. intros e. unfold hosts_of. rewrite sbo_att, sbo_queue, sbo_errors. reflexivity.
+Qed.
+
 Lemma spec_fire_ok s s' ev : spec_fire s = (s', ev) -> ok_trans s s' ev.
 Proof.
   unfold spec_fire. intros H.
   destruct (negb (spec_armed s)); [inversion H; subst; apply ok_same; reflexivity|].
   destruct (completed (set_spec s false (spec_left s))); [inversion H; subst; apply ok_same; reflexivity|].
   destruct (attempts (set_spec s false (spec_left s))) eqn:Att; [inversion H; subst; apply ok_same; reflexivity|].
+  destruct (elapsed (set_spec s false (spec_left s))).
+  { inversion H; subst. destruct (on_timeout_cover (set_spec s false (spec_left s))) as (P & C & Hh). apply ok_same; assumption. }
   destruct (send_request (set_spec s false (spec_left s)) false) as [s1 ev1] eqn:W. inversion H; subst.
   apply send_request_ok in W.
   assert (O : ok_trans s s1 ev).
